@@ -172,8 +172,8 @@ theorem total_filter_split (l : List Rec) :
   | nil => rfl
   | cons x t ih =>
     by_cases hx : x.count = 1
-    · simp [List.filter_cons, hx, total] at ih ⊢; omega
-    · simp [List.filter_cons, hx, total] at ih ⊢; omega
+    · simp [hx, total] at ih ⊢; omega
+    · simp [hx, total] at ih ⊢; omega
 
 /-- with `--no-singleton` the total count is conserved minus one per class of total count 1 -/
 theorem uniq_total_noSingleton (h : Seq → Nat) (o : Opts) (input : List Rec) (ok : InputOK o input) :
